@@ -7,6 +7,7 @@ import (
 	"bytes"
 	"context"
 	"crypto/x509"
+	"encoding/base64"
 	"encoding/hex"
 	"encoding/json"
 	"errors"
@@ -196,6 +197,12 @@ func (w *world) runMatrix(in Input) Obs {
 		case "vVerifyBlob":
 			out, err := bv.VerifyBlob(ctx, gen, w.blobSigs[in.Sig], bopts)
 			o.Err, o.Outcome, o.Consistent = err != nil, outcomeOf(out), vconsistent(err, out, selected(in.Blob))
+		case "vVerifyBlobGenError":
+			bad := func(a digest.Algorithm) (ocispec.Descriptor, error) {
+				return ocispec.Descriptor{}, errors.New("blob cannot be read")
+			}
+			out, err := bv.VerifyBlob(ctx, bad, w.blobSigs[in.Sig], bopts)
+			o.Err, o.Outcome, o.Consistent = err != nil, outcomeOf(out), vconsistent(err, out, selected(in.Blob))
 		case "skipVerify":
 			skip, _, err := skipper.SkipVerify(ctx, vopts)
 			o.Err = err != nil
@@ -328,6 +335,23 @@ func (w *world) fuzz(c *common.Ctx, n int) {
 	ts := truststore.NewX509TrustStore(dir.NewSysFS(tsRoot))
 	pemBytes := common.PEM(w.chain.Root().Cert)
 
+	// hand-made hostile cache entries before the random mutations
+	b64 := base64.StdEncoding.EncodeToString(crlDER)
+	for idx, e := range []string{
+		`{"baseCRL":"` + b64 + `","deltaCRL":""}`, `{"baseCRL":"` + b64 + `","deltaCRL":null}`, `{"baseCRL":"` + b64 + `","deltaCRL":[]}`,
+		`{"baseCRL":"` + b64 + `","deltaCRL":"AA=="}`, `{"baseCRL":"` + b64 + `","deltaCRL":0}`, `{"baseCRL":"","deltaCRL":"` + b64 + `"}`,
+		`{"baseCRL":null,"deltaCRL":"` + b64 + `"}`, `{"deltaCRL":"` + b64 + `"}`, `{"baseCRL":"","deltaCRL":""}`, `{}`, `null`, `[]`, `""`, `{"baseCRL":"` + b64 + `"}`,
+		`{"baseCRL":"` + b64 + `","deltaCRL":"` + b64 + `","baseCRL":""}`, `{"BASECRL":"` + b64 + `","DeltaCRL":""}`,
+	} {
+		e, idx := []byte(e), idx
+		curData = e
+		emit("parser", "crl-cache-entry-handmade", func() bool {
+			url := fmt.Sprintf("http://example/handmade/%d", idx)
+			plantCRL(cacheRoot, url, e)
+			b, err := cache.Get(ctx, url)
+			return err != nil || b != nil
+		})
+	}
 	for k := 0; k < n; k++ {
 		switch k % 9 {
 		case 0:
@@ -444,7 +468,7 @@ func Run(c *common.Ctx) error {
 		return nil
 	}
 	stmts := []string{"missing", "noMatch", "skip", "enforce"}
-	for _, entry := range []string{"vVerify", "vVerifyBlob", "skipVerify", "nVerify", "nVerifyBlob", "userMetadata", "nilArgs"} {
+	for _, entry := range []string{"vVerify", "vVerifyBlob", "vVerifyBlobGenError", "skipVerify", "nVerify", "nVerifyBlob", "userMetadata", "nilArgs"} {
 		for _, oci := range stmts {
 			for _, bl := range stmts {
 				if oci == "missing" && bl == "missing" {
